@@ -315,10 +315,15 @@ ORDERS = ['F', 'C', 'T', 'S']      # Fortran copy, C copy, transposed view of a 
 WEIGHTED = {'cc_wu', 'cc_wd', 'trans_wu', 'trans_wd', 'cc_sign_default', 'cc_sign_zhang', 'cc_sign_costantini'}
 
 
-def represent(Wf, dtype, order):
-    """the same matrix, freshly built in the given dtype and memory layout"""
+def represent(Wf, dtype, order, negzero=False):
+    """the same matrix, freshly built in the given dtype and memory layout; negzero (float dtypes): every other absent
+    connection is stored as the IEEE negative zero -0.0 (numerically equal to 0: the network is unchanged)"""
     X = np.asarray(Wf).astype(dtype)
     n = len(X)
+    if negzero and dtype.startswith('float'):
+        z = np.argwhere(X == 0)
+        for i, j in z[::2]:
+            X[i, j] = -0.0
     if order == 'F':
         return np.asfortranarray(X)
     if order == 'T':
@@ -361,7 +366,7 @@ def add_reps(rs, cases, frac, binary_kinds, weighted_kinds):
                 od = 'F'
         else:
             continue
-        out.append(dict(c, rep={'dtype': dt, 'order': od}, tag=c['tag'] + '+rep'))
+        out.append(dict(c, rep={'dtype': dt, 'order': od, 'negzero': bool(dt.startswith('float') and (kb + kw) % 2 == 0)}, tag=c['tag'] + '+rep'))
     return out
 
 
@@ -574,6 +579,8 @@ def make_probes(rs, cases, seqs_by_kind, count):
     """probe tasks: every sequence x {no edit, edit} x {returned arrays left alone, scribbled}, matrices drawn from `cases`"""
     pool = {}
     for c in cases:
+        if 'R' not in c and 'W' not in c:
+            continue
         W, _ = case_mats(c)
         if len(W) >= 4 and 'rep' not in c:
             pool.setdefault(c['kind'], []).append(c)
@@ -590,3 +597,44 @@ def make_probes(rs, cases, seqs_by_kind, count):
             if len(out) >= count:
                 return out
     return out
+
+
+# ------------------------------------------------------------------ size / multiplicity axis (round 4)
+
+SIZES = [12, 13, 16, 17, 32, 33, 64, 65, 100, 128, 129, 160, 256, 257]
+
+
+def beads(stages, m, directed):
+    """hub_0 - {m parallel nodes} - hub_1 - ... - hub_stages : m**stages equally short paths end to end"""
+    n = stages + 1 + stages * m
+    A = np.zeros((n, n)); nxt = stages + 1
+    for st in range(stages):
+        for _ in range(m):
+            A[st, nxt] = 1; A[nxt, st + 1] = 1
+            if not directed:
+                A[nxt, st] = 1; A[st + 1, nxt] = 1
+            nxt += 1
+    return A
+
+
+def lattice(k, directed):
+    """k x k grid (directed: edges point right and down): binomially many equally short paths"""
+    n = k * k; A = np.zeros((n, n))
+    for r in range(k):
+        for c in range(k):
+            for rr, c2 in ((r, c + 1), (r + 1, c)):
+                if rr < k and c2 < k:
+                    A[r * k + c, rr * k + c2] = 1
+                    if not directed:
+                        A[rr * k + c2, r * k + c] = 1
+    return A
+
+
+def sparse01(rs, n, deg, directed, isolate=0):
+    A = (rs.rand(n, n) < deg / max(1.0, n - 1.0)).astype(float)
+    np.fill_diagonal(A, 0)
+    if not directed:
+        A = np.triu(A, 1); A = A + A.T
+    for x in rs.permutation(n)[:isolate]:
+        A[x, :] = 0; A[:, x] = 0
+    return A
